@@ -3,5 +3,6 @@ CONSTANTS
   MaxN = @MAXN@
   Depth = @DEPTH@
   Emit = @EMIT@
-INVARIANTS TypeOK LenLaw Exhausted EmitHist
+  WithOf = @WITHOF@
+INVARIANTS TypeOK LenLaw Exhausted OfLaw EmitHist
 CHECK_DEADLOCK FALSE
